@@ -208,19 +208,51 @@ def vacuity_guard(rep, obls):
             continue
         g = 'the return' if m.group(1).startswith(('post', 'panic', 'throws')) else 'the back edge of loop %s' % m.group(2)
         groups.setdefault((o.func or o.name.split('/')[0], g), []).append(o)
+    # The probes run in solver processes with hard time limits (an in-process call once ignored its soft timeout for five
+    # minutes): first the quantifier-free hypotheses (2 s), then all of them (1 s).  Only `unsat` makes a path infeasible; a
+    # probe that runs out of time counts as feasible (the guard then says nothing about that path, it raises no alarm).
+    import tempfile, shutil, hashlib
+    from concurrent.futures import ThreadPoolExecutor
+    from .smt import run_solver, Obligation
+    wd = tempfile.mkdtemp(prefix='gvc-vac-')
     memo = {}
-    def feasible(o):
+    def texts(o):
         k = tuple(h.get_id() for h in o.hyps)
         if k in memo:
-            return memo[k]
-        s = z3.Solver(); s.set('timeout', 1500)
-        s.add([h for h in o.hyps if not _has_q(h)])
-        r = s.check()
-        if r != z3.unsat:
-            s2 = z3.Solver(); s2.set('timeout', 600); s2.add(o.hyps)
-            r = s2.check()
-        memo[k] = (r != z3.unsat)
-        return memo[k]
+            return k, None
+        memo[k] = None
+        g = Obligation('vac', [h for h in o.hyps if not _has_q(h)], None, 'cover').to_smt2(want_model=False)
+        f = Obligation('vac', list(o.hyps), None, 'cover').to_smt2(want_model=False) if any(_has_q(h) for h in o.hyps) else None
+        return k, (g, f)
+    def probe(job):
+        k, (g, f) = job
+        base = os.path.join(wd, hashlib.sha1(repr(k).encode()).hexdigest()[:16])
+        with open(base + '-g.smt2', 'w') as fh: fh.write(g)
+        ans, _, _ = run_solver('z3-new', base + '-g.smt2', 2)
+        if ans != 'unsat' and f is not None:
+            with open(base + '-f.smt2', 'w') as fh: fh.write(f)
+            ans, _, _ = run_solver('z3-new', base + '-f.smt2', 1)
+        return k, ans != 'unsat'
+    def feasible(o):
+        return memo.get(tuple(h.get_id() for h in o.hyps), True) is not False
+    # rounds: one member per group whose members so far were all infeasible (most groups are settled by their first member)
+    try:
+        pending = {gk: list(members) for gk, members in groups.items()}
+        while pending:
+            jobs = []
+            for gk, members in pending.items():
+                k, t = texts(members[0])          # (z3 term export is not thread safe: done here, serially)
+                if t is not None: jobs.append((k, t))
+            with ThreadPoolExecutor(max_workers=min(16, os.cpu_count() or 4)) as ex:
+                for k, ok in ex.map(probe, jobs):
+                    memo[k] = ok
+            nxt = {}
+            for gk, members in pending.items():
+                if not feasible(members[0]) and len(members) > 1:
+                    nxt[gk] = members[1:]
+            pending = nxt
+    finally:
+        shutil.rmtree(wd, ignore_errors=True)
     bad = []
     for (f, g), members in groups.items():
         if not any(feasible(o) for o in members):
